@@ -226,10 +226,12 @@ func H_C17_real() {
 // path, next to each other: one failure that names both.
 func H_C17_more() {
 	vxrt.CI(false)
-	vxrt.EnvFixed("NO_COLOR", "1")
+	vxrt.EnvPresent("NO_COLOR") // with and without colours
 	dir := vxrt.Dir()
 	c := WithConfig(Dir(dir), Filename("f"))
 	doc := `{"items":[1,2],"obj":{"a":1},"s":"a"}`
+	// the missing path of scenario (b): plain, or with a character special to format strings
+	token := []string{"token", "vat%", "100%s"}[vxrt.Choice("missing-path", 3)]
 	standalone := vxrt.Bool("standalone")
 	empty := vxDumpDir(dir)
 	t := vxNewT("TestR")
@@ -257,21 +259,30 @@ func H_C17_more() {
 		}
 		return
 	}
+	if vxrt.Bool("a-path-and-its-descendant-in-one-matcher") {
+		// paths take effect left to right: once `obj` is replaced by the placeholder, `obj.a` is gone
+		call(match.Any("obj", "obj.a"))
+		vxrt.Assert(len(t.errors) == 1 && len(t.logs) == 0, "C17:matcher-failure-fails-once")
+		vxrt.Assert(vxrt.Eq(vxDumpDir(dir), empty), "C17:matcher-failure-writes-nothing")
+		msg, _ := t.errors[0].(string)
+		vxrt.Assert(strings.Contains(msg, `match.Any("obj.a")`), "C17:failing-matcher-and-path-named")
+		return
+	}
 	cb := func(val any) (any, error) { return "c", nil }
 	pair := vxrt.Choice("pair", 3)
 	names := [][2]string{{"Type", "Custom"}, {"Any", "Custom"}, {"Custom", "Type"}}[pair]
 	mk := func(n string) match.JSONMatcher {
 		switch n {
 		case "Type":
-			return match.Type[string]("token")
+			return match.Type[string](token)
 		case "Any":
-			return match.Any("token")
+			return match.Any(token)
 		}
-		return match.Custom("token", cb)
+		return match.Custom(token, cb)
 	}
 	call(mk(names[0]), mk(names[1]))
 	vxrt.Assert(len(t.errors) == 1 && len(t.logs) == 0, "C17:matcher-failure-fails-once")
 	vxrt.Assert(vxrt.Eq(vxDumpDir(dir), empty), "C17:matcher-failure-writes-nothing")
 	msg, _ := t.errors[0].(string)
-	vxrt.Assert(strings.Contains(msg, "match."+names[0]+"(\"token\")") && strings.Contains(msg, "match."+names[1]+"(\"token\")"), "C17:failing-matcher-and-path-named")
+	vxrt.Assert(strings.Contains(msg, "match."+names[0]+"(\""+token+"\")") && strings.Contains(msg, "match."+names[1]+"(\""+token+"\")"), "C17:failing-matcher-and-path-named")
 }
